@@ -41,8 +41,9 @@ func (w *c15World) expandFact(env *c15Env, e ast.Expr, val bool, pos token.Pos, 
 		}
 	case *ast.Ident:
 		ob := objOf(w.info, x)
-		if b, ok := env.bind[ob]; ok && env.parent != nil {
-			w.expandFact(env.parent, b, val, pos, depth+1, out)
+		env = env.scope(ob)
+		if b, ok := env.lookup(ob); ok {
+			w.expandFact(b.env, b.expr, val, pos, depth+1, out)
 			return
 		}
 		if d := env.fn.singleDef(ob); d != nil && w.pureExpr(d, 0) {
@@ -50,9 +51,9 @@ func (w *c15World) expandFact(env *c15Env, e ast.Expr, val bool, pos token.Pos, 
 			return
 		}
 	case *ast.CallExpr:
-		if f := w.samePkgCallee(x); f != nil {
+		if f, ce := w.calleeOf(env, x); f != nil {
 			if ret := singleReturnExpr(f.fi); ret != nil {
-				w.expandFact(w.childEnv(env, x, f), ret, val, pos, depth+1, out)
+				w.expandFact(ce, ret, val, pos, depth+1, out)
 				return
 			}
 		}
@@ -233,12 +234,34 @@ func c15U3(r *core.R) {
 		return
 	}
 	nfun := 0
+	// units: every declared function, and every function literal (with the environment it is written in, so that
+	// captured variables resolve)
+	var units []*c15Env
+	var addLits func(env *c15Env)
+	addLits = func(env *c15Env) {
+		ast.Inspect(env.fn.fi.Decl.Body, func(n ast.Node) bool {
+			lit, ok := n.(*ast.FuncLit)
+			if !ok {
+				return true
+			}
+			if lf := w.litFn(lit); lf != nil {
+				le := &c15Env{fn: lf, lex: env}
+				units = append(units, le)
+				addLits(le)
+			}
+			return false
+		})
+	}
 	for _, fi := range w.order {
-		f := w.fn(fi.Obj)
-		if f == nil {
-			continue
+		if f := w.fn(fi.Obj); f != nil {
+			env := w.rootEnv(f)
+			units = append(units, env)
+			addLits(env)
 		}
-		env := w.rootEnv(f)
+	}
+	for _, env := range units {
+		f := env.fn
+		fi := f.fi
 		type use struct {
 			ix  *ast.IndexExpr
 			key string
@@ -352,10 +375,15 @@ func (w *c15World) containerKey(env *c15Env, e ast.Expr) string {
 	if p == nil {
 		return env.fn.name() + " " + types.TypeString(w.info.TypeOf(e), c15Qualifier)
 	}
-	if env.root().fn.isInput(p.root) {
+	owner := env
+	for owner.lex != nil {
+		owner = owner.lex // a function literal is named after the function it is written in
+	}
+	owner = owner.root()
+	if owner.fn.isInput(p.root) {
 		return p.String()
 	}
-	return env.root().fn.name() + " " + p.String()
+	return owner.fn.name() + " " + p.String()
 }
 
 func c15Qualifier(pk *types.Package) string {
